@@ -104,7 +104,12 @@ with cbody : list stmt -> bool -> token -> Prop :=
 | cy_fall kw semi nx :
     typ kw = T_FALLTHROUGH -> typ semi = T_SEMICOLON -> case_end nx -> cbody [SFallthrough kw semi] true nx
 | cy_cons s ss ft nx :
-    cstmt s (hdt (flat_map ystmt ss ++ [nx])) -> cbody ss ft nx -> cbody (s :: ss) ft nx.
+    cstmt s (hdt (flat_map ystmt ss ++ [nx])) -> cbody ss ft nx -> cbody (s :: ss) ft nx
+(* a break; / fallthrough; that is NOT the last statement of the clause (the parser accepts it) *)
+| cy_mid_break kw semi ss ft nx :
+    typ kw = T_BREAK -> typ semi = T_SEMICOLON -> cbody ss ft nx -> cbody (SBreak kw semi :: ss) ft nx
+| cy_mid_fall kw semi ss ft nx :
+    typ kw = T_FALLTHROUGH -> typ semi = T_SEMICOLON -> cbody ss ft nx -> cbody (SFallthrough kw semi :: ss) ft nx.
 
 Scheme cstmt_mut := Minimality for cstmt Sort Prop
   with cblock_mut := Minimality for cblock Sort Prop
@@ -306,6 +311,8 @@ Proof.
   - exists [], kw, semi. reflexivity.
   - exists [], kw, semi. reflexivity.
   - destruct IHcbody as [pre [kw [semi E]]]. exists (s :: pre), kw, semi. rewrite E. reflexivity.
+  - destruct IHcbody as [pre [kw0 [semi0 E]]]. exists (SBreak kw semi :: pre), kw0, semi0. rewrite E. reflexivity.
+  - destruct IHcbody as [pre [kw0 [semi0 E]]]. exists (SFallthrough kw semi :: pre), kw0, semi0. rewrite E. reflexivity.
 Qed.
 
 Lemma ccases_in cs rb : ccases cs rb -> forall h c body ft, In (Case h c body ft) cs -> exists nx, cbody body ft nx.
@@ -671,6 +678,36 @@ Proof.
     destruct (H2 pv1 n ltac:(lia)) as [kwl [E5 Hkl]]. subst tail. rewrite E5.
     exists kwl. split; [|exact Hkl]. cbn [rev]. rewrite <- app_assoc. cbn [app].
     rewrite (lastt_x_app x (ystmt s) (flat_map ystmt ss)) by apply ystmt_ne. reflexivity.
+  - (* break; in the middle of a case body *)
+    intros kw semi ss ft nx Hk Hs Hb IHb x acc rest Hnx. subst nx.
+    destruct (IHb semi (SBreak kw semi :: acc) rest eq_refl) as [N2 H2].
+    exists (S (S N2)). intros pv n Hn. destruct n as [|[|n]]; try lia.
+    rewrite pbody_F. unfold F_body. cbn [flat_map ystmt app].
+    rewrite !peek_is_cons, Hk.
+    replace (ttype_eqb T_BREAK T_CASE) with false by reflexivity.
+    replace (ttype_eqb T_BREAK T_DEFAULT) with false by reflexivity.
+    replace (ttype_eqb T_BREAK T_RIGHT_BRACE) with false by reflexivity. cbn [orb].
+    rewrite pstmt_S. cbn zeta. rewrite next_cons. rewrite psimple_none by (right; right; right; right; left; exact Hk).
+    rewrite cur_cons, Hk. rewrite (pkw_semi_rt _ _ _ _ _ Hs). cbn [pbind].
+    destruct (H2 (Some kw) (S n) ltac:(lia)) as [kwl [E5 Hkl]]. rewrite E5.
+    exists kwl. split; [|exact Hkl]. cbn [rev]. rewrite <- app_assoc. cbn [app].
+    replace (lastt (x :: kw :: semi :: flat_map ystmt ss)) with (lastt (semi :: flat_map ystmt ss)); [reflexivity|].
+    symmetry. apply (lastt_suffix _ [x; kw]); [reflexivity | discriminate].
+  - (* fallthrough; in the middle of a case body *)
+    intros kw semi ss ft nx Hk Hs Hb IHb x acc rest Hnx. subst nx.
+    destruct (IHb semi (SFallthrough kw semi :: acc) rest eq_refl) as [N2 H2].
+    exists (S (S N2)). intros pv n Hn. destruct n as [|[|n]]; try lia.
+    rewrite pbody_F. unfold F_body. cbn [flat_map ystmt app].
+    rewrite !peek_is_cons, Hk.
+    replace (ttype_eqb T_FALLTHROUGH T_CASE) with false by reflexivity.
+    replace (ttype_eqb T_FALLTHROUGH T_DEFAULT) with false by reflexivity.
+    replace (ttype_eqb T_FALLTHROUGH T_RIGHT_BRACE) with false by reflexivity. cbn [orb].
+    rewrite pstmt_S. cbn zeta. rewrite next_cons. rewrite psimple_none by (right; right; right; right; right; exact Hk).
+    rewrite cur_cons, Hk. rewrite (pkw_semi_rt _ _ _ _ _ Hs). cbn [pbind].
+    destruct (H2 (Some kw) (S n) ltac:(lia)) as [kwl [E5 Hkl]]. rewrite E5.
+    exists kwl. split; [|exact Hkl]. cbn [rev]. rewrite <- app_assoc. cbn [app].
+    replace (lastt (x :: kw :: semi :: flat_map ystmt ss)) with (lastt (semi :: flat_map ystmt ss)); [reflexivity|].
+    symmetry. apply (lastt_suffix _ [x; kw]); [reflexivity | discriminate].
 Qed.
 
 End P.
